@@ -98,10 +98,15 @@ func TestC15Hook(t *testing.T) {
 	done := make(chan bool)
 	go func() { defer close(done); defer func() { recover() }(); mc.Run(ctx) }()
 	// wait until the n-th configuration of the interface has happened and the hook has had time to run
+	// (the hook of configuration n is the (n+1)-th call - the first one reports the initial removal - and, after the refused
+	// re-validation, one more: it is awaited rather than timed, a busy machine may need seconds to start a shell)
+	extraCalls := 0
 	waitConfigured := func(n int) bool {
 		for end := time.Now().Add(15 * time.Second); time.Now().Before(end); time.Sleep(50 * time.Millisecond) {
 			if setifaceCount(w.name) >= n {
-				time.Sleep(1500 * time.Millisecond)
+				for end2 := time.Now().Add(12 * time.Second); time.Now().Before(end2) && len(w.calls()) < n+1+extraCalls; time.Sleep(50 * time.Millisecond) {
+				}
+				time.Sleep(300 * time.Millisecond)
 				return true
 			}
 		}
@@ -163,6 +168,7 @@ func TestC15Hook(t *testing.T) {
 		w.rs.mode = "nak-renew"
 		ifmon.VerifLinkUp(w.name)
 		atomic.AddInt64(&vl.n, 1)
+		extraCalls = 1
 		if !waitConfigured(nconf + 1) {
 			vl.add("c15-hook", "after a NAK: the interface was not configured again within 15 s")
 		} else {
